@@ -290,6 +290,53 @@ func genSites() {
 	}
 	v.b.WriteString("].\n\n")
 
+	// ---- what the undo closures call --------------------------------------------------------------
+	// stateChanger.revert runs every change's revert() while holding the changer's (non re-entrant)
+	// lock: a revert method must only use the non-journaling setters.  Inventory: per change type the
+	// selector calls of its revert method, in source order.
+	scf := parseFile(filepath.Join(*repo, "internal/ledger/state_changer.go"))
+	type rv struct {
+		typ   string
+		calls []string
+	}
+	var rvs []rv
+	for _, d := range scf.Decls {
+		fd, ok := d.(*ast.FuncDecl)
+		if !ok || fd.Body == nil || fd.Name.Name != "revert" || fd.Recv == nil || len(fd.Recv.List) != 1 {
+			continue
+		}
+		t := strings.TrimPrefix(exprString(fd.Recv.List[0].Type), "*")
+		if t == "stateChanger" {
+			continue
+		}
+		var calls []string
+		ast.Inspect(fd.Body, func(n ast.Node) bool {
+			if call, ok := n.(*ast.CallExpr); ok {
+				switch f := call.Fun.(type) {
+				case *ast.SelectorExpr:
+					calls = append(calls, f.Sel.Name)
+				case *ast.Ident:
+					calls = append(calls, f.Name)
+				}
+			}
+			return true
+		})
+		rvs = append(rvs, rv{t, calls})
+	}
+	if len(rvs) == 0 {
+		fatalf("no revert methods found in internal/ledger/state_changer.go")
+	}
+	sort.Slice(rvs, func(i, j int) bool { return rvs[i].typ < rvs[j].typ })
+	fmt.Fprintf(&v.b, "(* (change type of internal/ledger/state_changer.go, functions and methods its revert() calls) *)\n")
+	fmt.Fprintf(&v.b, "Definition revert_calls : list (string * list string) :=\n  [")
+	for i, r := range rvs {
+		if i > 0 {
+			v.b.WriteString(";\n   ")
+		}
+		fmt.Fprintf(&v.b, "(%s, %s)", gstr(r.typ), glistStr(r.calls))
+	}
+	v.b.WriteString("].\n\n")
+
 	// ---- the embedded Stub interface and the contract types that embed it ---------------------
 	coreDir := moduleDir("github.com/meshplus/bitxhub-core")
 	sf := parseFile(filepath.Join(coreDir, "boltvm", "stub.go"))
